@@ -190,27 +190,26 @@ Proof.
     pose proof (len_nonneg inp) as Hli.
     pose proof (tok_at_len _ _ _ _ (Z.le_refl 0) (Z.le_refl _) Tc) as L1.
     destruct Tc as (P1 & P2 & P3 & P4 & P5 & P6).
-    assert (CO : 1 <= t_len t1 /\ (first_is (t_val t1) x2f = true -> 2 <= t_len t1)).
+    assert (CO : 1 <= t_len t1 /\ (first_is (t_val t1) x23 = false -> 2 <= t_len t1)).
     { unfold class_ok in P6. rewrite Hc in P6. rewrite beq_refl in P6.
       apply andb_true_iff in P6. destruct P6 as [_ P6]. cbn [negb orb] in P6.
       apply andb_true_iff in P6. destruct P6 as [Q1 Q2]. split; [lia|]. intros Hf. rewrite Hf in Q2. cbn in Q2. lia. }
     destruct CO as [CO1 CO2].
     apply wp_bind. cbn [wget]. change (0 <=? 1) with true. cbv iota. cbn [Z.to_nat Pos.to_nat Pos.iter_op Nat.add nth_error].
     apply wp_Ok. apply wp_bind. apply wp_get; [lia|]. intros v0 Nv0.
-    destruct (beq v0 x23); [exact I|].
+    destruct (beq v0 x23) eqn:Ehash; [exact I|].
     apply wp_bind. cbn [wget]. change (0 <=? 0) with true. cbv iota. cbn [Z.to_nat nth_error]. apply wp_Ok.
     ifs; try exact I.
-    (* number, comment starting with '/', at most two tokens: the raw input is inspected *)
-    assert (Hslash : first_is (t_val t1) x2f = true).
-    { destruct (t_val t1) as [|x r]; [discriminate|]. cbn in Nv0. inversion Nv0; subst x. cbn [first_is].
-      match goal with H : true && negb (beq v0 x2f) = false |- _ => cbn [andb] in H; apply negb_false_iff in H; exact H end. }
-    specialize (CO2 Hslash).
+    (* number followed by a dash comment, at most two tokens: the raw input is inspected *)
+    assert (Hnohash : first_is (t_val t1) x23 = false).
+    { destruct (t_val t1) as [|x r]; [discriminate|]. cbn in Nv0. inversion Nv0; subst x. cbn [first_is]. exact Ehash. }
+    specialize (CO2 Hnohash).
     assert (Hnum : t_cat t0 = cN).
     { match goal with H : cat_is t0 cN && _ = true |- _ => apply andb_true_iff in H; destruct H as [H _]; apply cat_is_eq in H; exact H end. }
     destruct G0 as (_ & _ & _ & _ & _ & G0). destruct (G0 (or_introl Hnum)) as [Q1 Q2].
     destruct H0 as (_ & Z0 & _).
     apply wp_bind. apply wp_get; [fold inp; lia|]. intros ch Nch.
-    destruct (code ch <=? 32); [exact I|].
+    destruct ((code ch <=? 32) || is_byte_white ch); [exact I|].
     apply wp_bind. apply (wp_conseq _ (fun _ => True)).
     { destruct (beq ch x2f); [|exact I]. apply wp_bind. apply wp_get; [fold inp; lia|]. intros; exact I. }
     intros sl _. destruct sl; [exact I|].
